@@ -69,8 +69,32 @@ pub mod channel {
         Disconnected,
     }
 
+    enum Tx<T> {
+        Bounded(mpsc::SyncSender<(u32, T)>),
+        Unbounded(mpsc::Sender<(u32, T)>),
+    }
+
+    impl<T> Tx<T> {
+        fn send(&self, m: (u32, T)) -> Result<(), mpsc::SendError<(u32, T)>> {
+            match self {
+                Tx::Bounded(s) => s.send(m),
+                Tx::Unbounded(s) => s.send(m),
+            }
+        }
+    }
+
+    impl<T> Clone for Tx<T> {
+        fn clone(&self) -> Self {
+            match self {
+                Tx::Bounded(s) => Tx::Bounded(s.clone()),
+                Tx::Unbounded(s) => Tx::Unbounded(s.clone()),
+            }
+        }
+    }
+
     pub struct Sender<T> {
-        inner: mpsc::SyncSender<(u32, T)>,
+        inner: Tx<T>,
+        unbounded: bool,
     }
 
     pub struct Receiver<T> {
@@ -89,7 +113,20 @@ pub mod channel {
         });
         let (tx, rx) = mpsc::sync_channel(cap);
         (
-            Sender { inner: tx },
+            Sender { inner: Tx::Bounded(tx), unbounded: false },
+            Receiver { inner: rx, held: RefCell::new(Vec::new()), disconnected: Cell::new(false) },
+        )
+    }
+
+    /// `crossbeam::channel::unbounded`
+    pub fn unbounded<T>() -> (Sender<T>, Receiver<T>) {
+        ctx::with(|c| {
+            c.senders_alive = 1;
+            c.receiver_alive = true;
+        });
+        let (tx, rx) = mpsc::channel();
+        (
+            Sender { inner: Tx::Unbounded(tx), unbounded: true },
             Receiver { inner: rx, held: RefCell::new(Vec::new()), disconnected: Cell::new(false) },
         )
     }
@@ -106,7 +143,7 @@ pub mod channel {
     impl<T> Clone for Sender<T> {
         fn clone(&self) -> Self {
             ctx::with(|c| c.senders_alive += 1);
-            Sender { inner: self.inner.clone() }
+            Sender { inner: self.inner.clone(), unbounded: self.unbounded }
         }
     }
 
@@ -138,7 +175,7 @@ pub mod channel {
                 shuttle::thread::sleep(std::time::Duration::from_millis(0));
             }
             let q = QLEN.with(|q| q.get());
-            if q >= cap.max(1) {
+            if !self.unbounded && q >= cap.max(1) {
                 ctx::probe("sender_blocked_on_full");
             }
             match self.inner.send((tag, t)) {
@@ -841,6 +878,12 @@ pub mod walk {
     pub fn probe_steal() {
         ctx::probe("steal_happened");
     }
+}
+
+/// Stand-in for the `crossbeam` crate root (`use verif_rt::shim_crossbeam as crossbeam;`): the
+/// channel module is the simulator's, everything else is crossbeam's own.
+pub mod shim_crossbeam {
+    pub use super::channel;
 }
 
 /// number of walker threads for this run (hook H1a)
